@@ -93,8 +93,13 @@ def BOUNDED(tier, seed):
     evals = 0
     out = []
     for k, n, G in cases:
-        probs = _quadrature(k, n, G)
         evals += 1
+        try:
+            probs = _quadrature(k, n, G)
+        except Exception as ex:   # noqa  (the library raised, or drew in a way the scripted generator cannot serve)
+            fails.append({'key': 'raised', 'summary': f'k={k} n={n}: UniformReservoirStorage raised {ex!r} under scripted draws', 'k': k, 'n': n,
+                          'observed': repr(ex)})
+            continue
         exp = k / n
         tol = 0.07 if tier == 'quick' else 0.035
         out.append({'k': k, 'n': n, 'grid': G, 'probs': [round(p, 4) for p in probs], 'expected': round(exp, 4)})
